@@ -452,11 +452,21 @@ fn pool_cmd(args: &[String]) {
             }
         });
     }
+    let mut confirmed_misses = 0u32;
     let mut emit = |cfg: &str, width: u32, threads: usize, reps: u32, limit: u64, out: &mut dyn Write| {
         let case = format!("pool cfg={} width={} threads={} reps={} limit={}", cfg, width, threads, reps, limit);
         // the repetitions stop at the first timeout; in that one the heads may time out one after the other
         *current.lock().unwrap() = Some((case.clone(), std::time::Instant::now(), limit * (width as u64 + 2) + 30_000));
-        let obs = poolh::observe(cfg, width, threads, reps, limit);
+        let mut obs = poolh::observe(cfg, width, threads, reps, limit);
+        // a rendezvous missed although the pool is large enough can be the machine (heavy load: `width` threads must all get a
+        // CPU within the limit), not the crate: the configuration is run once more with four times the limit, and that
+        // result counts - a dispatcher that really serialises the stage times out at any limit
+        // (only the first two confirmed misses of a run are re-run: after that it is not the machine)
+        if threads >= width as usize && obs.contains("timeout=1") && confirmed_misses < 2 {
+            *current.lock().unwrap() = Some((case.clone(), std::time::Instant::now(), 4 * limit * (width as u64 + 2) + 30_000));
+            obs = poolh::observe(cfg, width, threads, 1, 4 * limit);
+            if obs.contains("timeout=1") { confirmed_misses += 1; }
+        }
         *current.lock().unwrap() = None;
         writeln!(out, "{} :: -\t{}", case, obs).unwrap();
         out.flush().unwrap();
